@@ -25,8 +25,8 @@ MC = [  # cfg, expectation
 MC_THOROUGH = [('ExecMC_fixed3.cfg', None)]
 
 
-def model_check(chk, wdir, tier):
-    for cfg, expect in MC + (MC_THOROUGH if tier != 'quick' else []):
+def model_check(chk, wdir, tier, only=None):
+    for cfg, expect in [x for x in MC if only is None or x[0] in only] + (MC_THOROUGH if tier != 'quick' else []):
         r = vlib.tlc(wdir + '/execmc', 'ExecMC', cfg, workers=vlib.NCPU, timeout=3000)
         vlib.tlc_must_parse(r, cfg)
         chk.add_tlc('exhaustive ' + cfg, r)
@@ -35,11 +35,11 @@ def model_check(chk, wdir, tier):
                 raise Inconclusive('design model %s: %s' % (cfg, r.violated or r.error))
         elif expect not in (r.violated or []):
             raise Inconclusive('design model %s: expected a counterexample to %s (the variant is known to be wrong), got %s' % (cfg, expect, r.violated or 'none'))
-    chk.cov['exec_model_variants_refuted'] = [c for c, e in MC if e]
+    chk.cov['exec_model_variants_refuted'] = [c for c, e in MC if e and (only is None or c in only)]
 
 
-def gen(tier):
-    rng = random.Random(vlib.seed() * 7001 + 12)
+def gen(tier, kinds=('plain', 'window', 'kill'), nkill=8):
+    rng = random.Random(vlib.seed() * 7001 + 12 + len(kinds))
     cases = []
 
     def add(**kw):
@@ -47,6 +47,8 @@ def gen(tier):
         kw.setdefault('gate', 0)
         kw.setdefault('killev', '')
         kw.setdefault('killn', 0)
+        if kw['kind'] not in kinds:
+            return
         kw['id'] = len(cases) + 1
         cases.append(kw)
     for nshard in (1, 2, 3):
@@ -61,7 +63,7 @@ def gen(tier):
     evs = ['BmGrant', 'BmCall', 'BmReply', 'BmSetLoc', 'BmOkSet']
     pts = [(e, n) for e in evs for n in range(1, 5)]
     if tier == 'quick':
-        pts = rng.sample(pts, 8)
+        pts = rng.sample(pts, nkill)
     else:
         pts = pts + [(e, n) for e in evs for n in range(5, 9)]
     for e, n in pts:
@@ -163,14 +165,14 @@ def drift_check(chk, wdir, recs):
         chk.cov['exec_conformance_selftest'] = res
 
 
-def run(chk, w, tier, replay_case=None):
+def run(chk, w, tier, replay_case=None, kinds=('plain', 'window', 'kill'), nkill=8, mc_only=None):
     wdir = w.root + '/tlc'
     if replay_case is not None:
         cases = [replay_case]
         cases[0]['id'] = 1
     else:
-        model_check(chk, wdir, tier)
-        cases = gen(tier)
+        model_check(chk, wdir, tier, only=mc_only)
+        cases = gen(tier, kinds, nkill)
     json.dump(cases, open(w.out('xcases.json'), 'w'))
     p = w.gotest('./exec/', 'TestVerifC12X$', env={'VERIF_CASES': w.out('xcases.json')}, timeout=3000)
     out = w.out('c12x_records.ndjson')
@@ -180,9 +182,9 @@ def run(chk, w, tier, replay_case=None):
     if len(recs) != len(cases):
         raise Inconclusive('%d executor records for %d cases' % (len(recs), len(cases)))
     need = {'EvalSubmit', 'BmGrant', 'BmCall', 'BmReply', 'BmSetLoc', 'BmOkSet', 'SmAssign', 'TaskState'}
-    kinds = {e['ev'] for r in recs for e in r.get('events', [])}
-    if not need <= kinds:
-        raise Inconclusive('executor hook events missing: %s' % sorted(need - kinds))
+    evkinds = {e['ev'] for r in recs for e in r.get('events', [])}
+    if not need <= evkinds:
+        raise Inconclusive('executor hook events missing: %s' % sorted(need - evkinds))
     v = vlib.judge(chk, wdir, 'xmon', 'ExecMon', 'ExecMon.cfg', 'c12x_records.ndjson', out, 'c12x_verdict.json', nrecs=len(recs), timeout=1500)
     byid = {c['id']: c for c in cases}
     rb = {r['id']: r for r in recs}
@@ -197,7 +199,7 @@ def run(chk, w, tier, replay_case=None):
     chk.cov['executor_events'] = sum(len(r.get('events', [])) for r in recs)
     chk.cov['executor_windows_found'] = sum(1 for r in recs if r.get('window'))
     chk.cov['executor_kills'] = sum(1 for r in recs for e in r.get('events', []) if e['ev'] == 'HKill')
-    chk.cov['traces_validated_against_impl'] += len(recs)
+    chk.cov['traces_validated_against_impl'] = chk.cov.get('traces_validated_against_impl', 0) + len(recs)
     for c in cases:
         chk.case({k: c[k] for k in c if k != 'id'}, nontrivial=True)
     if replay_case is None:
